@@ -111,6 +111,8 @@ def _case(draw):
     hist = draw(st.lists(st.tuples(st.sampled_from(["set_v1", "set_G1", "del_G1", "set_Ac", "set_K", "set_G2", "set_Abc2"]), st.one_of(_T, _NT)).map(list), max_size=4))
     if draw(st.booleans()):
         hist.append(["value", ""])
+    if draw(st.booleans()):
+        hist.append(["call-again", ""])  # the query-building function is called a second time, after the rebinding steps
     return {"vals": vals, "v1_name": v1_name, "p": p, "items": items, "history": hist,
             "used": sorted(used), "refuse": any(nontrans[u] for u in used)}
 
@@ -243,6 +245,21 @@ def check(case) -> Result:
                     mod.A.B.c2 = val
                 elif op == "set_K":
                     om.K = val
+                elif op == "call-again":
+                    try:
+                        s2 = mod.make(ds)
+                    except Exception:
+                        continue  # the rebound values may be non-transportable or break the lambda: nothing to compare
+                    if log[-1][0] == "ok":
+                        lam2 = s2.query_ast.args[1]
+                        try:
+                            got2 = pyeval.materialise(pyeval.evaluate(lam2, {})(_Elem()))
+                        except Exception as e:
+                            return r.fail(f"second call (after rebinding): emitted lambda `{ast.unparse(lam2)}` fails: {type(e).__name__}: {e}\n{text}")
+                        if got2 != log[-1][1]:
+                            return r.fail(f"second call (after rebinding): emitted lambda `{ast.unparse(lam2)}` gives {got2}, the real lambda now gives {log[-1][1]}\n{text}")
+                    r.labels.append("called-twice")
+                    continue
                 elif op == "value":
                     coro = s.value_async()
                     try:
